@@ -158,10 +158,12 @@ def _cases_P(tier):
     maxc = _MAXC[tier]
     for shape in param_lists(maxc):
         for ctx in CONTEXTS:
+            single = [("none", "0", None)] + [(a, "0", None) for a in ANN[1:]] + [("none", d, None) for d in DEFAULTS[1:]] + [("none", "0", r) for r in RETURNS[1:]]
             if tier == "quick":
-                variants = [("none", "0", None)] + [(a, "0", None) for a in ANN[1:]] + [("none", d, None) for d in DEFAULTS[1:]] + [("none", "0", r) for r in RETURNS[1:]]
+                variants = single
             else:
-                variants = list(itertools.product(ANN, DEFAULTS, RETURNS))
+                # the full product over the first five annotation patterns, eight defaults and five returns; the entries added later deviate one at a time
+                variants = list(dict.fromkeys(list(itertools.product(ANN[:5], DEFAULTS[:8], RETURNS[:5])) + single))
             has_default = shape[5] or shape[6]
             for a, d, r in variants:
                 if d != "0" and not has_default:
